@@ -254,6 +254,10 @@ VALUE_FORMS = [
     ('define g with a begin print a end g -6 [g -8]', '-6 -8'),
     ('assign x -1 print x', '-1'),
     ('printf "{} {}" not 0 not 1', 'True False'),
+    # a printf that ends its line: what follows starts the next line, with no separator owed
+    ('printf "a\\n" print 1', 'a\n1'),
+    ('printf "x {}\\n" 2 print 3 println 4 print 5', 'x 2\n3 4\n5'),
+    ('print 0 printf "{}\\n" 1 printf "{}\\n" 2', '0 1\n2\n'),
     ('assign x 0 print not x println not 5', 'True False\n'),
     ('define f with a begin print a end f not 0', 'True'),
     ('repeat 2 with h cycle -90 begin print h end', '-90 90.0'),
